@@ -274,6 +274,9 @@ pub fn fault_batch(_ctx: &mut Ctx, a: &[String]) -> Out {
             let _ = f.seek(std::io::SeekFrom::Start(0));
             let _ = f.write_all(&(i as u64).to_le_bytes());
         }
+        if i % 400 == 0 {
+            mon::flush_coverage();
+        }
         *mon::LAST_PANIC.lock().unwrap() = None;
         let limit = 64 * buf.len() + (64 << 20);
         mon::begin_case(i, limit);
